@@ -280,41 +280,33 @@ def cases_draw(ctx):
         nfm = nfm + [5]
         lens_sets.append((2 ** 24, [2 ** 20 + 1, 2 ** 22 - 1, 2 ** 22 + 3, 2 ** 23 - 1, 2 ** 23, 2 ** 23 + 1, 2 ** 24 - 1, 2 ** 24]))
     rands = PATTERNS + ["seed:%d" % (ctx.seed * 1000 + k) for k in range(2 if quick else 8)]
-    i = 0
-    # time-mask group: full product of its four limits; the other groups cycle
+    pk = random.Random(ctx.seed + 8000).choice  # the limits outside the group under full product are picked pseudo-randomly (seeded)
+    # time-mask group: full product of its four limits
     for a in mtm:
         for b in mtp:
             for c in ntm:
                 for d in ntp:
                     for T, lens in lens_sets:
                         for r in rands:
-                            i += 1
-                            cfg = [_cyc(tw, i), _cyc(fw, i, 3), a, _cyc(mfm, i, 5), b, c, d, _cyc(nfm, i, 7)]
-                            yield {"T": T, "F": _cyc(fs, i), "lens": lens, "cfg": cfg, "rand": r, "dtype": _cyc(DTYPES, i)}
+                            yield {"T": T, "F": pk(fs), "lens": lens, "cfg": [pk(tw), pk(fw), a, pk(mfm), b, c, d, pk(nfm)], "rand": r, "dtype": pk(DTYPES)}
     # warp group: full product of both warp limits and F
     for a in tw:
         for b in fw:
             for F in fs:
                 for T, lens in lens_sets:
                     for r in rands:
-                        i += 1
-                        cfg = [a, b, _cyc(mtm, i), _cyc(mfm, i, 3), _cyc(mtp, i, 5), _cyc(ntm, i, 7), _cyc(ntp, i, 11), _cyc(nfm, i, 13)]
-                        yield {"T": T, "F": F, "lens": lens, "cfg": cfg, "rand": r, "dtype": _cyc(DTYPES, i)}
+                        yield {"T": T, "F": F, "lens": lens, "cfg": [a, b, pk(mtm), pk(mfm), pk(mtp), pk(ntm), pk(ntp), pk(nfm)], "rand": r, "dtype": pk(DTYPES)}
     # frequency-mask group: full product of its limits and F
     for a in mfm:
         for b in nfm:
             for F in fs:
                 for r in rands:
-                    i += 1
-                    cfg = [_cyc(tw, i), _cyc(fw, i, 3), _cyc(mtm, i, 5), a, _cyc(mtp, i, 7), _cyc(ntm, i, 11), _cyc(ntp, i, 13), b]
-                    yield {"T": 24, "F": F, "lens": LENS_SMALL, "cfg": cfg, "rand": r, "dtype": _cyc(DTYPES, i)}
+                    yield {"T": 24, "F": F, "lens": LENS_SMALL, "cfg": [pk(tw), pk(fw), pk(mtm), a, pk(mtp), pk(ntm), pk(ntp), b], "rand": r, "dtype": pk(DTYPES)}
     # lengths omitted (every row has length T)
     for T in range(1, 13 if quick else 41):
         for r in rands:
             for k in range(4):
-                i += 1
-                cfg = [_cyc(tw, i), _cyc(fw, i, 3), _cyc(mtm, i, 5), _cyc(mfm, i, 7), _cyc(mtp, i, 11), _cyc(ntm, i, 13), _cyc(ntp, i, 17), _cyc(nfm, i, 19)]
-                yield {"T": T, "F": _cyc(fs, i), "lens": None, "N": 3, "cfg": cfg, "rand": r, "dtype": _cyc(DTYPES, i)}
+                yield {"T": T, "F": pk(fs), "lens": None, "N": 3, "cfg": [pk(tw), pk(fw), pk(mtm), pk(mfm), pk(mtp), pk(ntm), pk(ntp), pk(nfm)], "rand": r, "dtype": pk(DTYPES)}
     if not quick:
         rng = random.Random(ctx.seed + 8001)
         for k in range(30000):
@@ -442,7 +434,7 @@ def cases_masks(ctx):
                         i += 1
                         batch = [rows[(j + q * K) % len(rows)] for q in range(4)]
                         lens = None if i % 3 == 0 else [1 + (i + q) % T for q in range(4)]
-                        yield {"T": T, "F": F, "rows": batch, "lens": lens, "dtype": _cyc(DTYPES, i), "seed": i % 9973, "none": i % 4 == 1, "fn": i % 5 == 2}
+                        yield {"T": T, "F": F, "rows": batch, "lens": lens, "dtype": _cyc(DTYPES, i), "seed": i % 9973, "none": i % 4 == 1, "fn": i % 7 == 2}
     if not ctx.quick:
         rng = random.Random(ctx.seed + 8002)
         for k in range(40000):
@@ -545,19 +537,21 @@ def check_call(case):
 
 def cases_call(ctx):
     quick = ctx.quick
+    rng = random.Random(ctx.seed + 8005)
+    pk = rng.choice
     i = 0
     for T in range(1, 9 if quick else 17):
         for F in ([1, 3, 6] if quick else [1, 2, 3, 6, 11]):
             for k in range(140 if quick else 600):
                 i += 1
-                cfg = [_cyc(Q_TW, i) if i % 3 == 0 else 0.0, _cyc(Q_FW, i, 3) if i % 6 == 0 else 0.0, _cyc(Q_MTM, i, 5), _cyc(Q_MFM, i, 7), _cyc(Q_MTP, i, 11), _cyc(Q_NTM, i, 13),
-                       _cyc(Q_NTP, i, 17), _cyc(Q_NFM, i, 19)]
+                warp = i % 3 == 0
+                cfg = [pk(Q_TW) if warp else 0.0, pk(Q_FW) if warp and i % 2 else 0.0, pk(Q_MTM), pk(Q_MFM), pk(Q_MTP), pk(Q_NTM), pk(Q_NTP), pk(Q_NFM)]
                 if i % 4 == 0:  # make the time masks likely to be switched on and visible
-                    cfg[2], cfg[4], cfg[5], cfg[6] = _cyc([1, 2, 5, 100], i), _cyc([0.5, 1.0], i), _cyc([1, 2, 20], i), _cyc([0.3, 1.0], i)
-                lens = None if i % 5 == 0 else [1 + (i * 3 + q * 5) % T for q in range(3)]
+                    cfg[2], cfg[4], cfg[5], cfg[6] = pk([1, 2, 5, 100]), pk([0.5, 1.0]), pk([1, 2, 20]), pk([0.3, 1.0])
+                lens = None if i % 5 == 0 else [rng.randint(1, T) for q in range(3)]
                 warp = bool(cfg[0] or cfg[1])
-                yield {"T": T, "F": F, "N": 3, "lens": lens, "cfg": cfg, "order": 1 + (i % 3 if warp else 0), "seed": (ctx.seed * 100003 + i) % (2 ** 31),
-                       "dtype": "f32" if warp else _cyc(DTYPES, i), "fn": i % 4 == 3}
+                yield {"T": T, "F": F, "N": 3, "lens": lens, "cfg": cfg, "order": pk([1, 2, 3]) if warp else 1, "seed": rng.randrange(2 ** 31),
+                       "dtype": "f32" if warp else pk(DTYPES), "fn": i % 4 == 3}
 
 
 # ---------------------------------------------------------------------------------------------
@@ -735,7 +729,7 @@ def _cases_warp_apply(ctx, orders, salt):
     tws = [0.5, 1.0, 2.5, 80.0] if quick else [0.25, 0.5, 1.0, 2.5, 6.0, 80.0]
     fws = [0.0, 1.0, 80.0]
     Fs = [1, 2, 5] if quick else [1, 2, 3, 5, 9]
-    nseeds = 9 if quick else 40
+    nseeds = (9 if quick else 40) if salt == 1 else (5 if quick else 16)
     i = 0
     for T in range(1, Tmax + 1):
         lens = list(range(1, T + 1))
@@ -809,6 +803,10 @@ CHECKERS = {
 
 def run_bounded(ctx):
     ctx.known_match.update(KNOWN_MATCH)
+    # import once in the parent so the forked workers inherit the loaded modules instead of importing torch 16 times per clause
+    _torch().set_num_threads(1)
+    import pydrobert.torch.functional  # noqa: F401
+    import pydrobert.torch.modules  # noqa: F401
     only = getattr(ctx, "only", None)
 
     def want(name):
@@ -819,7 +817,7 @@ def run_bounded(ctx):
         ctx.bounded("C08.draw.bounds", check_draw, cases_draw(ctx),
                     bound=("lengths: every L in 1..24 in one batch (T=24), plus {1,6,..,21,25,31..33,50,99..101,127..129,1000,4095..4097,65535,65536,2^20-1,2^20} (T=2^20)%s; "
                            "full product of the 4 time-mask limits (%d combos), of (max_time_warp, max_freq_warp, F) and of (max_freq_mask, num_freq_mask, F), "
-                           "the other limits cycling through their grids; lengths=None for T<=%d; draws: 7 adversarial patterns over {0, 1-2^-24, 0.5} + %d generator seeds; "
+                           "the other limits picked (seeded) from their grids; lengths=None for T<=%d; draws: 7 adversarial patterns over {0, 1-2^-24, 0.5} + %d generator seeds; "
                            "feats dtype cycles float32/64/16%s") % (
                         "" if q else " plus 8 lengths in 2^20+1..2^24 (T=2^24)", len(Q_MTM) * len(Q_MTP) * len(Q_NTM) * len(Q_NTP) if q else 8 * 12 * 6 * 8, 12 if q else 40, 2 if q else 8,
                         "" if q else "; + 30000 seeded random (configuration, lengths<=2^24, draw) cases"),
@@ -837,7 +835,7 @@ def run_bounded(ctx):
                     functions=["_img.spec_augment_apply_parameters", "_img.SpecAugment.apply_parameters"])
     if want("C08.call.modes"):
         ctx.bounded("C08.call.modes", check_call, cases_call(ctx),
-                    bound="T in 1..%d, F in %s, N=3, %d (configuration, lengths, generator seed) combinations per (T,F) cycling through the limit grids; module call and functional form" % (
+                    bound="T in 1..%d, F in %s, N=3, %d (configuration, lengths, generator seed) combinations per (T,F) picked (seeded) from the limit grids; module call and functional form" % (
                         (8, "{1,3,6}", 140) if q else (16, "{1,2,3,6,11}", 600)),
                     text="eval mode returns the input bit-identical; training keeps the shape, leaves the input untouched, equals apply(draw) under the same generator state; zero cells are whole "
                          "frames inside the valid region / whole coefficients within the caps; with warps: finite and within the input's range (with 0)",
@@ -859,7 +857,7 @@ def run_bounded(ctx):
                     chunk=32, functions=["_img.spec_augment_apply_parameters", "_img.warp_1d_grid"])
     if want("C08.warp.range"):
         ctx.bounded("C08.warp.range", check_warp_range, cases_warp_range(ctx),
-                    bound="as C08.warp.order but interpolation orders 1..3 and random feats in [5,8]",
+                    bound="as C08.warp.order (with %d seeds per configuration) but interpolation orders 1..3 and random feats in [5,8]" % (5 if q else 16),
                     text="apply_parameters with time and/or frequency warp of order 1..3: shape and dtype kept, every value finite and inside [min,max] of its batch element's input (tol 1e-5 relative)",
                     chunk=32, functions=["_img.spec_augment_apply_parameters", "_img.warp_1d_grid", "_img.polyharmonic_spline"])
     ctx.replay_known_witnesses()
